@@ -3,7 +3,7 @@ import glob
 import os
 import random
 
-from ..engine import Violation
+from ..engine import Violation, _short_tb
 from ..seeds import H
 from .. import fortran as F
 from .store_base import StoreMachine, swarm_knobs, gen_fault
@@ -456,19 +456,37 @@ class InconMachine(StoreMachine):
                                         gen_real(rng, False, False) if rng.random() < .5 else None,
                                         perm)
         what %= 6
+        # the edit, stated on a plain list of (name, values): what the set must hold afterwards
+        model = [(b.block, list(b.variable)) for b in inc._blocklist]
+        def do(fn, text):
+            try:
+                return fn()
+            except Violation:
+                raise
+            except Exception as e:
+                raise Violation('EXC', '%s on a set of %d blocks raised %s' % (text, n, _short_tb(e)))
         if what == 0:
             nm = fresh()
             if nm:
-                inc.add_incon(blockincon(nm))
+                b = blockincon(nm)
+                do(lambda: inc.add_incon(b), 'add_incon (new name)')
+                model.append((nm, list(b.variable)))
         elif what == 1:
             nm = fresh()
             if nm:
-                inc.insert_incon(idx % (n + 1), blockincon(nm))
+                b = blockincon(nm)
+                do(lambda: inc.insert_incon(idx % (n + 1), b), 'insert_incon')
+                model.insert(idx % (n + 1), (nm, list(b.variable)))
         elif what == 2 and n:
-            inc.delete_incon(inc._blocklist[idx % n].block)
+            do(lambda: inc.delete_incon(inc._blocklist[idx % n].block), 'delete_incon')
+            del model[idx % n]
         elif what == 3 and n:
             nm = inc._blocklist[idx % n].block
-            inc[nm] = [gen_real(rng, True, True) for _ in range(nvar)]     # item assignment
+            vals = [gen_real(rng, True, True) for _ in range(nvar)]
+            def assign():
+                inc[nm] = vals                                                # item assignment
+            do(assign, 'item assignment')
+            model[idx % n] = (nm, list(vals))
             if react:
                 # keep the flavour recorded in the file: some block must carry permeabilities
                 if not any(b.permeability is not None for b in inc._blocklist):
@@ -479,8 +497,26 @@ class InconMachine(StoreMachine):
             inc.porosity = gen_real(rng, False, False) if rng.random() < .7 else None
         elif what == 5 and n:
             nm = inc._blocklist[idx % n].block
-            inc.add_incon(blockincon(nm))                                    # replace in place
+            b = blockincon(nm)
+            do(lambda: inc.add_incon(b), 'add_incon (existing name)')        # replace in place
+            model[idx % n] = (nm, list(b.variable))
         if react and not any(b.permeability is not None for b in inc._blocklist):
             inc.simulator = 'TOUGH2'
+        got = [(b.block, list(b.variable)) for b in inc._blocklist]
+        if [g[0] for g in got] != [m[0] for m in model]:
+            k = next((i for i, (g, m) in enumerate(zip(got, model)) if g[0] != m[0]),
+                     min(len(got), len(model)))
+            raise Violation('O1.edit', 'after edit %d the set lists blocks %r, the edit should '
+                            'give %r (from position %d)' % (what, [g[0] for g in got][k:k + 3],
+                                                            [m[0] for m in model][k:k + 3], k))
+        for g, m in zip(got, model):
+            if len(g[1]) != len(m[1]) or any(a != b and not (a != a and b != b)
+                                             for a, b in zip(g[1], m[1])):
+                raise Violation('O1.edit', 'after edit %d block %r holds %r, the edit should give '
+                                '%r' % (what, g[0], g[1][:4], m[1][:4]))
+        if sorted(inc._block) != sorted(m[0] for m in model) or \
+                any(inc._block[b.block] is not b for b in inc._blocklist):
+            raise Violation('O1.edit', 'after edit %d the by-name lookup of the set does not '
+                            'describe its block list' % what)
         ctx.fp.append(('E', what))
         ctx.digest.add('EDIT', repr(self.snap(inc)))
